@@ -237,6 +237,7 @@ fn check_rt(ctx: &Ctx, env: &Env, case: &RtCase) -> CaseResult {
     rep.class_if(case.value.opts.iter().flatten().any(|v| spec.is_reserved(&v.0) && !model::is_help(&v.0)), "option-value-is-an-option-token");
     rep.class_if(has_non_ascii_value(&case.value), "value-non-ascii");
     rep.class_if(case.value.opts.iter().zip(spec.opts).any(|(v, o)| o.kind == Kind::Many && v.len() >= 2), "repeated-option-2+");
+    rep.class_if(case.value.opts.iter().any(|v| v.len() >= 200), "option-repeated-200-times-or-more");
     rep.class_if(case.value.opts.iter().zip(spec.opts).any(|(v, o)| o.kind == Kind::Opt && v.is_empty()), "optional-option-absent");
     rep.class_if(spec.pos.iter().zip(&case.value.pos).any(|(p, v)| p.optional && v.is_none()), "optional-positional-absent");
     rep.class_if(spec.pos.iter().zip(&case.value.pos).any(|(p, v)| p.optional && v.is_some()), "optional-positional-present");
